@@ -22,9 +22,9 @@ class Roles:
         if len(self.emitters) < 3:
             raise AnalysisBroken("expected the three per-instruction emitters calling %s, found %s" % (self.encode, self.emitters))
         # room check: called by every emitter, compares with buffer_len
-        common = set.intersection(*[set(self.g[e]) for e in self.emitters])
+        common = set.union(*[set(self.g[e]) for e in self.emitters])
         rc = [n for n in common if n in lib and any(a.field == "buffer_len" and a.ctx == "r" for a in EFF.accesses(prog.body(lib[n])))]
-        self.room_check = self._one(rc, "the room check (called by every emitter, reads buffer_len)", prefer="check_len_or_resize")
+        self.room_check = self._one(rc, "the room check (called by the emitters, reads buffer_len)", prefer="check_len_or_resize")
         # driver: calls all emitters
         dr = [n for n in lib if all(e in self.g.get(n, ()) for e in self.emitters)]
         self.driver = self._one(dr, "the per-line driver (calls all emitters)", prefer="assemble_all")
